@@ -36,12 +36,12 @@ IsStutter(i) == Tr[i].skip # "" \/ Tr[i].act.a = "final"
 Match == /\ l < Len(Tr) /\ Tr[l+1].act.a # "init"
          /\ IF IsStutter(l+1)
             THEN UNCHANGED <<ptip, pann, sendhdrs, net, out, chain, startH, req, toReq, lastSaved, infl, inSync,
-                             pendSync, hdrReq, hsDone, notified, ann, tipc, badNotify, restarts, prs, dups, advs, unts, act>>
+                             pendSync, hdrReq, hsDone, notified, ann, tipc, badNotify, restarts, prs, dups, advs, unts, chk, act>>
             ELSE Step(Tr[l+1].act)
          /\ Logged(l+1)
          /\ l' = l + 1 /\ UNCHANGED rej
 
-TStart(i) == /\ tipc' = 0 /\ badNotify' = FALSE /\ restarts' = 0 /\ prs' = 0 /\ dups' = 0 /\ advs' = 0 /\ unts' = 0 /\ act' = A0("init")
+TStart(i) == /\ tipc' = 0 /\ badNotify' = FALSE /\ restarts' = 0 /\ prs' = 0 /\ dups' = 0 /\ advs' = 0 /\ unts' = 0 /\ chk' = FALSE /\ act' = A0("init")
             /\ Logged(i) /\ l' = i
 Begin == l < Len(Tr) /\ Tr[l+1].act.a = "init" /\ TStart(l+1) /\ UNCHANGED rej
 
